@@ -360,6 +360,9 @@ func c14Run(l *explore.Local, m *machine.M, lm *lineMon, c c14Case, t0 int) *exp
 	}
 	vbl, st := 0, 0
 	broken := false
+	// extended: the schedule broke after an unrelated register write (C13 reports that); the run is then extended by
+	// exactly two frame lengths, which must contain exactly two VBlank requests whatever the phase
+	extended, vblExt := false, 0
 	for t := t0; t < total; t++ {
 		if t == c.OffAt && c.Write != 0 {
 			w := c14Writes[c.Write-1]
@@ -402,6 +405,12 @@ func c14Run(l *explore.Local, m *machine.M, lm *lineMon, c c14Case, t0 int) *exp
 		newLine, msg := lm.step(ly, mode)
 		if msg != "" || broken {
 			// the line/mode schedule itself is C13's business; without it only the count per frame can be judged
+			if !broken && c.Write != 0 && t >= c.OffAt {
+				extended = true
+				total = t + 1 + 2*17556
+			} else if extended && iff&1 != 0 {
+				vblExt++
+			}
 			broken = true
 			if iff&1 != 0 {
 				vbl++
@@ -461,6 +470,10 @@ func c14Run(l *explore.Local, m *machine.M, lm *lineMon, c c14Case, t0 int) *exp
 		}
 		prevMode = mode
 		justOn = false
+	}
+	if extended && vblExt != 2 {
+		w := c14Writes[c.Write-1]
+		return explore.Failf("VBlank is not requested exactly once per frame", "source %s LYC=%d: after %04x<-%02x written at cycle %d (LCD on throughout) the following 35,112 machine cycles contain %d VBlank requests", c.Source, c.LYC, w[0], w[1], c.OffAt, vblExt)
 	}
 	if broken && c.OffAt < 0 && t0 == 0 && vbl != c.Frames {
 		return explore.Failf("VBlank is not requested exactly once per frame", "source %s LYC=%d objects=%d: %d VBlank requests in %d frames (%d machine cycles) with the LCD on throughout", c.Source, c.LYC, c.OAM, vbl, c.Frames, total)
